@@ -4,6 +4,9 @@ ops (see harness/src/freq.rs):
   0 new slot max_map_size | 1 update slot item weight hash | 2 query slot item hash | 3 stats slot
   4 merge dst src | 5 frequent slot error_type mode threshold | 6 serialize slot | 7 roundtrip src dst
   8 deserialize slot k hashes.. bytes.. | 9 reset slot | 10 epsilon slot
+  11 parse slot k hashes.. bytes.. (slot cleared first, allocation accounted) | 12 canon slot (image decoded, pairs sorted)
+focus (legs of the cross-cutting properties): "codec" C11, "layout" C12, "foreign" C13, "malformed" C14,
+  "extremes" C17, "size" C18; None = C07.
 The hash of an item (MurmurHash3 x64 128 of its 8 LE bytes, seed 9001, first word) is computed here
 with tools/pyref.py and handed to the model; the crate hashes the item itself.
 """
@@ -14,14 +17,14 @@ import pyref
 FAMILY = "freq"
 CORR = "Freq"              # Coq module DS.Corr.Freq
 FAMNUM = 4
-ORACLES = {"prop_ok": 0}
+ORACLES = {"prop_ok": 0, "prop_roundtrip": 1, "prop_layout": 2, "no_panic": 3, "prop_foreign": 4}
 GEN_MODULES = [("GenFreq",
                 ["frequencies/sketch.rs", "frequencies/reverse_purge_item_hash_map.rs", "frequencies/serialization.rs"],
                 ["LG_MIN_MAP_SIZE", "SAMPLE_SIZE", "EPSILON_FACTOR", "LOAD_FACTOR_NUMERATOR", "LOAD_FACTOR_DENOMINATOR",
                  "LOAD_FACTOR", "DRIFT_LIMIT", "MAX_SAMPLE_SIZE", "SERIAL_VERSION", "PREAMBLE_LONGS_EMPTY",
                  "PREAMBLE_LONGS_NONEMPTY", "EMPTY_FLAG_MASK"])]
 OPNAMES = {0: "new", 1: "update", 2: "query", 3: "stats", 4: "merge", 5: "frequent_items", 6: "serialize",
-           7: "roundtrip", 8: "deserialize", 9: "reset", 10: "epsilon"}
+           7: "roundtrip", 8: "deserialize", 9: "reset", 10: "epsilon", 11: "parse", 12: "canon"}
 
 SEED = 9001
 SCRATCH = 7                 # slot that only receives round trips / deserialized images
@@ -112,7 +115,7 @@ def probe_ops(rng, s, dom, thr_hint):
 
 
 def image(lg_max, lg_cur, weight, offset, pairs, empty_form=None):
-    if empty_form == "rust6":
+    if empty_form == "rust6":       # what serialize() wrote before fix 9f33b93: rejected by every reader
         return [1, 1, 10, lg_max, lg_cur, 5]
     if empty_form == "java8":
         return [1, 1, 10, lg_max, lg_cur, 5, 0, 0]
@@ -214,6 +217,26 @@ def gen_d6(rng, cid, size):
     return Case(cid, [], ops, tag="fi-d6-%d" % size)
 
 
+def gen_heavy(rng, cid, size):
+    """cap+1 distinct items, all of one weight except ONE heavier item, the heavy item at every (up to 7) insertion
+    position, one sketch per position: the purge's sample (the first L active slots in table order) then consists of
+    equal counters while a larger counter may sit in the unsampled part of the table"""
+    cap = max(size, 8) * 3 // 4
+    items = fresh_items(rng, cap + 1, rng.choice(["small", "random"]))
+    w = rng.choice([1, 1, 3])
+    heavy = w + rng.choice([1, 24, 1000])
+    positions = list(range(cap + 1))
+    rng.shuffle(positions)
+    positions = sorted(positions[:7])
+    ops = [(0, [i, size]) for i in range(len(positions))]
+    for i, p in enumerate(positions):
+        for j, x in enumerate(items):
+            ops.append((1, [i, x, heavy if j == p else w, h(x)]))
+        ops.append((3, [i]))
+    ops += final_ops(rng, list(range(len(positions))), items, [31337])
+    return Case(cid, [], ops, tag="fi-heavy-%d" % size)
+
+
 def gen_images(rng, cid):
     """deserialize hand-built images (valid, both empty forms, truncated, wrong header) and keep using the result"""
     ops = []
@@ -260,7 +283,548 @@ SIZES_BIG = [512, 1024, 2048]
 KINDS = ["uniform", "zipf", "distinct", "equal"]
 
 
+# ======================================================================================
+#  legs of the cross-cutting properties
+# ======================================================================================
+def cap_of(size):
+    return max(size, 8) * 3 // 4
+
+
+def i64(u):
+    return u - 2**64 if u >= 2**63 else u
+
+
+def ref_parse(b):
+    """reference reading of an image the way the (repaired) reader validates it: returns None when it is rejected,
+    else (lg_max, lg_cur, weight, offset, [(item, count)]).  Used by the generator only (hashes of the image's items,
+    keeping would-be-accepted huge tables out of the runs, classifying known findings)."""
+    if len(b) < 8:
+        return None
+    pre, ver, fam, lgm, lgc, flags = b[0] & 0x3F, b[1], b[2], b[3], b[4], b[5]
+    if fam != 10 or ver != 1 or lgc > lgm or lgm > 62:
+        return None
+    if flags & 5:
+        return (lgm, lgc, 0, 0, []) if pre == 1 else None
+    if pre != 4 or len(b) < 32:
+        return None
+    n = int.from_bytes(bytes(b[8:12]), "little")
+    w = int.from_bytes(bytes(b[16:24]), "little"); off = int.from_bytes(bytes(b[24:32]), "little")
+    if (len(b) - 32) // 8 < n or n > (1 << max(lgc, 3)) // 4 * 3:
+        return None
+    vals = [int.from_bytes(bytes(b[32 + 8 * i:40 + 8 * i]), "little") for i in range(n)]
+    if off + sum(vals) > w:
+        return None
+    if len(b) < 32 + 16 * n:
+        return None
+    items = [i64(int.from_bytes(bytes(b[32 + 8 * n + 8 * i:40 + 8 * n + 8 * i]), "little")) for i in range(n)]
+    return (lgm, lgc, w, off, list(zip(items, vals)))
+
+
+def image_items(b):
+    """the items of an image as far as they are present (whatever the reader will think of it)"""
+    if len(b) < 32:
+        return []
+    n = int.from_bytes(bytes(b[8:12]), "little")
+    start = 32 + 8 * n
+    k = max(0, min(n, (len(b) - start) // 8))
+    return [i64(int.from_bytes(bytes(b[start + 8 * i:start + 8 * i + 8]), "little")) for i in range(k)]
+
+
+SLOT_BYTES = 26
+
+
+def table_alloc_exceeds(b):
+    r = ref_parse(b)
+    return r is not None and SLOT_BYTES * (1 << max(r[1], 3)) + 16 * len(r[4]) > 64 * len(b) + (1 << 20)
+
+
+def parse_op(slot, b):
+    hs = [h(x) for x in image_items(b)]
+    return (11, [slot, len(hs)] + hs + list(b))
+
+
+def spec_image(lg_max, lg_cur, weight, offset, pairs, hibits=0, flags=None, un16=0, un32=0, short=True):
+    """the generator's spec encoder (Spec/FreqLayout.v enc_spec): every liberty a foreign writer has"""
+    if short and weight == 0:
+        f = 5 if flags is None else flags
+        return [1 + 64 * hibits, 1, 10, lg_max, lg_cur, f] + list(un16.to_bytes(2, "little"))
+    f = 0 if flags is None else flags
+    b = bytes([4 + 64 * hibits, 1, 10, lg_max, lg_cur, f]) + un16.to_bytes(2, "little") + struct.pack("<II", len(pairs), un32)
+    b += struct.pack("<QQ", weight, offset)
+    for _, c in pairs:
+        b += struct.pack("<Q", c)
+    for x, _ in pairs:
+        b += struct.pack("<q", x)
+    return list(b)
+
+
+def random_abs(rng, lg_max=None, lg_cur=None, fill=None):
+    lg_max = lg_max if lg_max is not None else rng.choice([3, 3, 4, 5, 6, 8, 10, 11, 12, 62])
+    lg_cur = lg_cur if lg_cur is not None else rng.choice([3, 3, min(4, lg_max), min(6, lg_max), min(lg_max, 10)])
+    lg_cur = min(lg_cur, lg_max)
+    cap = (1 << lg_cur) * 3 // 4
+    n = fill if fill is not None else rng.choice([0, 1, 2, cap // 2, cap - 1, cap])
+    n = min(n, cap, 200)
+    items = fresh_items(rng, n, rng.choice(["small", "mixed", "random"])) if n else []
+    pairs = [(x, rng.choice([1, 2, 7, rng.randint(1, 1000), rng.randint(1, 2**40)])) for x in items]
+    offset = rng.choice([0, 0, 3, rng.randint(0, 10**6)])
+    weight = offset + sum(c for _, c in pairs) + rng.choice([0, 0, 1, rng.randint(0, 10**9)])
+    if n == 0 and rng.random() < 0.5:
+        weight, offset = 0, 0
+    return lg_max, lg_cur, weight, offset, pairs
+
+
+def observe_ops(slot, items, unseen, thr_hint, raw=True):
+    ops = [(3, [slot]), (10, [slot]), (12, [slot])]
+    for x in list(items) + list(unseen):
+        ops.append((2, [slot, x, h(x)]))
+    ops += [(5, [slot, 0, 0, 0]), (5, [slot, 1, 0, 0]), (5, [slot, 0, 1, thr_hint]), (5, [slot, 1, 1, thr_hint])]
+    if raw:
+        ops.append((6, [slot]))
+    return ops
+
+
+class Twin:
+    """emits every operation on src and then, immediately, on dst (Base/Oracles.v twin_from)"""
+    def __init__(self, ops, src, dst):
+        self.ops, self.src, self.dst = ops, src, dst
+
+    def both(self, code, rest):
+        self.ops.append((code, [self.src] + rest))
+        self.ops.append((code, [self.dst] + rest))
+
+    def observe(self, items, unseen, thr_hint):
+        self.both(3, []); self.both(10, []); self.both(12, [])
+        for x in list(items) + list(unseen):
+            self.both(2, [x, h(x)])
+        for et in (0, 1):
+            self.both(5, [et, 0, 0]); self.both(5, [et, 1, thr_hint])
+
+
+def gen_codec(rng, cid, tier, purge):
+    """C11: build a state, fork it through serialize/deserialize (op 7), then identical operations on both twins.
+    purge=False: the whole case holds fewer distinct items than the smallest capacity, so no purge ever happens and the
+    twins must agree on everything.  purge=True: the continuation crosses resizes and purges; a divergence after a purge
+    is the known finding C11-freq-layout-not-carried (the image does not carry the slot layout)."""
+    size = rng.choice([8, 8, 16, 16, 32, 64, 128, 256] + ([512, 1024, 2048] if rng.random() < 0.25 else []))
+    cap = cap_of(size)
+    psize = rng.choice([size, size, 8, 64])
+    ops = [(0, [0, size]), (0, [2, psize])]
+    wmax = rng.choice([3, 10, 1000, 2**33])
+    if purge:
+        kind = rng.choice(["uniform", "zipf", "distinct", "equal", "fresh", "reset", "merged"])
+        ndom = rng.choice([cap + 1, 2 * cap, 3 * cap + 7])
+        dom = fresh_items(rng, ndom, rng.choice(["small", "mixed", "random"]) if ndom < 200 else "random")
+        n = rng.choice([cap + 1, 2 * cap + 5, 4 * cap]) if size <= 256 else rng.choice([cap + 1, 2 * cap + 5])
+    else:
+        kind = rng.choice(["uniform", "zipf", "fresh", "reset", "merged", "few"])
+        ndom = max(1, rng.choice([1, 2, min(cap, 6) // 2, min(cap, cap_of(psize)) - 1]))
+        dom = fresh_items(rng, ndom, rng.choice(["small", "mixed", "random"]))
+        n = rng.choice([1, ndom, 3 * ndom])
+    if kind in ("distinct", "equal"):
+        st = stream(rng, kind, dom, cap + 1 if kind == "distinct" else n, wmax)
+    elif kind == "fresh":
+        st = []
+    else:
+        st = stream(rng, "zipf" if kind == "zipf" else "uniform", dom, n, wmax)
+    for (x, w) in st:
+        ops.append((1, [0, x, w, h(x)]))
+    if kind == "reset":
+        ops.append((9, [0]))
+        for (x, w) in st[:rng.randrange(0, 4)]:
+            ops.append((1, [0, x, w, h(x)]))
+    # the partner for merges shares part of the domain
+    pdom = dom[:max(1, len(dom) // 3)]
+    for (x, w) in stream(rng, "uniform", pdom, rng.choice([0, 1, len(pdom)]), 5):
+        ops.append((1, [2, x, w, h(x)]))
+    if kind == "merged":
+        ops.append((4, [0, 2]))
+    ops += [(3, [0]), (6, [0])]
+    ops.append((7, [0, 1]))                       # the fork
+    tw = Twin(ops, 0, 1)
+    unseen = [x for x in (123456789, -987654321) if x not in set(dom)]
+    qdom = dom if len(dom) <= 40 else rng.sample(dom, 40)
+    tw.observe(qdom, unseen, wmax)
+    # continued updates (crossing a resize / a purge when purge=True), merges, reset
+    more = stream(rng, rng.choice(["uniform", "zipf"]), dom,
+                  rng.choice([3, cap // 2 + 1, 2 * cap + 3]) if purge else rng.choice([1, 3, ndom]), wmax)
+    every = max(2, len(more) // 4)
+    for i, (x, w) in enumerate(more):
+        tw.both(1, [x, w, h(x)])
+        if i % every == every - 1:
+            tw.both(3, []); tw.both(12, [])
+            y = rng.choice(qdom); tw.both(2, [y, h(y)])
+    tw.both(4, [2]); tw.both(3, []); tw.both(12, [])
+    # the twins merged into two (twin) copies of a third sketch
+    ops.append((7, [2, 3]))
+    ops += [(4, [2, 0]), (4, [3, 1])]
+    tw2 = Twin(ops, 2, 3)
+    tw2.both(3, []); tw2.both(12, [])
+    for y in qdom[:6]:
+        tw2.both(2, [y, h(y)])
+    tw.observe(qdom[:10], unseen[:1], wmax)
+    if rng.random() < 0.3:
+        tw.both(9, []); tw.both(3, []); tw.both(12, [])
+        x = dom[0]; tw.both(1, [x, 2, h(x)]); tw.both(12, [])
+    # a second round trip of the copy
+    ops += [(7, [1, 5]), (3, [5]), (12, [5])]
+    return Case(cid, [], ops, tag="fi-codec-%s-%s-%d" % ("p" if purge else "np", kind, size))
+
+
+def twin_mismatches(case):
+    """replays Base/Oracles.v twin_from (fork = 7, breakers 0 8 11) on the observations: returns, for every pair of
+    twin observations that differ, whether maximum_error grew on one of the twins since their fork (a purge ran)"""
+    tw = {}          # (src, dst) -> [offset at fork or None, max offset seen since]
+    prev = None
+    res = []
+
+    def off_of(code, ob):
+        if not ob or ob[0] in (-999, -998, -997, -996):
+            return None
+        if code == 2 and len(ob) >= 4:
+            return ob[3]
+        if code in (3, 5):
+            return ob[0]
+        if code == 12 and len(ob) >= 10:
+            return ob[9]
+        return None
+
+    for (code, a), ob in zip(case.ops, case.obs or []):
+        if code == 7:
+            d = a[1]
+            tw = {k: v for k, v in tw.items() if d not in k}
+            tw[(a[0], a[1])] = [None, None]
+            prev = None
+            continue
+        o = off_of(code, ob)
+        if o is not None:
+            for k, v in tw.items():
+                if a[0] in k:
+                    if v[0] is None:
+                        v[0] = o
+                    v[1] = o if v[1] is None else max(v[1], o)
+        if prev is not None:
+            (pc, pa), pob = prev
+            if pc == code and (pa[0], a[0]) in tw and pa[1:] == a[1:] and pob != ob:
+                v = tw[(pa[0], a[0])]
+                res.append(v[0] is not None and v[1] is not None and v[1] > v[0])
+        if code in (0, 8, 11):
+            tw = {k: v for k, v in tw.items() if a[0] not in k}
+        prev = ((code, a), ob)
+    return res
+
+
+def kf_twin_layout(case):
+    """known finding C11-freq-layout-not-carried: the twins differ, and every difference comes after a purge that ran
+    since the fork (maximum_error of a twin grew): the image does not carry the slot layout, which decides the sample
+    of the next purge.  Differences before any purge are NOT this finding."""
+    res = twin_mismatches(case)
+    return bool(res) and all(res)
+
+
+def gen_layout(rng, cid, tier):
+    """C12: histories with known exact truth; every serialize() is decoded by the spec decoder (oracle prop_layout)"""
+    r = rng.random()
+    if r < 0.5:
+        c = gen_single(rng, cid, rng.choice(SIZES_SMALL + [128, 256]), rng.choice(KINDS), tier)
+    elif r < 0.85:
+        k = rng.randint(2, 4)
+        c = gen_merge(rng, cid, [rng.choice(SIZES_SMALL + [128]) for _ in range(k)], tier)
+    else:
+        c = gen_d6(rng, cid, rng.choice([8, 16, 32]))
+    # a serialize after every fifth mutation, and a round trip whose copy is serialized too
+    ops = []
+    for i, op in enumerate(c.ops):
+        ops.append(op)
+        if op[0] in (1, 4, 9) and i % 5 == 0:
+            ops.append((6, [op[1][0]]))
+    ops += [(7, [0, 6]), (6, [6]), (3, [6]), (1, [6, 5, 3, h(5)]), (6, [6])]
+    return Case(cid, [], ops, tag=c.tag.replace("fi-", "fi-layout-", 1))
+
+
+def use_value_ops(rng, slot, lg_max, items):
+    """a value returned as Ok must be usable: queried, updated (enough to resize and purge small maps), merged with a
+    round-trip copy of itself, re-serialized"""
+    ops = [(3, [slot]), (12, [slot])]
+    for x in list(items)[:4] + [424242]:
+        ops.append((2, [slot, x, h(x)]))
+    ops += [(5, [slot, 0, 0, 0]), (5, [slot, 1, 1, 2])]
+    nupd = 2 * (1 << max(lg_max, 3)) if lg_max <= 5 else 12
+    base = rng.randint(-50, 50)
+    for i in range(nupd):
+        x = base + i
+        ops.append((1, [slot, x, rng.choice([1, 2, 9]), h(x)]))
+    ops += [(7, [slot, slot + 1]), (4, [slot, slot + 1]), (3, [slot]), (6, [slot]), (12, [slot + 1])]
+    return ops
+
+
+def mutate(rng, img, n):
+    b = list(img)
+    r = rng.random()
+    if r < 0.10 and b:
+        i = rng.randrange(len(b)); b[i] ^= 1 << rng.randrange(8)
+    elif r < 0.18 and b:
+        i = rng.randrange(len(b)); b[i] = rng.choice([0, 1, 127, 128, 255, rng.randrange(256)])
+    elif r < 0.30:
+        b[3] = rng.choice([0, 2, 3, 4, 31, 32, 61, 62, 63, 64, 65, 127, 128, 200, 255])
+    elif r < 0.40:
+        b[4] = rng.choice([0, 2, 3, 4, b[3], (b[3] + 1) % 256, 10, 14, 31, 62, 63, 64, 200, 255])
+    elif r < 0.46:
+        b[3], b[4] = rng.choice([(63, 3), (64, 64), (200, 3), (255, 255), (62, 14), (40, 41), (3, 4), (0, 0), (2, 1)])
+    elif r < 0.54:
+        b[5] = rng.choice([0, 1, 2, 4, 5, 8, 0xFA, 0xFF])
+        if rng.random() < 0.5:
+            b[0] = rng.choice([1, 4, 1 + 64, 4 + 128, 0, 2, 3, 5, 63, 255])
+    elif r < 0.60:
+        b[0] = rng.choice([0, 1, 2, 3, 4, 5, 63, 64, 65, 68, 132, 255])
+    elif r < 0.70 and len(b) >= 12:
+        v = rng.choice([0, 1, n - 1 if n else 0, n + 1, 2 * n, 6, 7, 12, 2**16, 2**31, 2**32 - 1, (len(b) - 32) // 8, (len(b) - 32) // 8 + 1])
+        b[8:12] = list((v % 2**32).to_bytes(4, "little"))
+    elif r < 0.78 and len(b) >= 32:
+        which = rng.choice([16, 24])
+        v = rng.choice([0, 1, 2**63, 2**64 - 1, 2**64 - 2, rng.getrandbits(64), int.from_bytes(bytes(b[16:24]), "little") - 1,
+                        int.from_bytes(bytes(b[16:24]), "little") + 1]) % 2**64
+        b[which:which + 8] = list(v.to_bytes(8, "little"))
+    elif r < 0.86 and len(b) >= 40:
+        i = 32 + 8 * rng.randrange(max(1, n))       # a count
+        v = rng.choice([0, 1, 2**63, 2**64 - 1, 2**64 - 1, rng.getrandbits(64)])
+        if i + 8 <= len(b):
+            b[i:i + 8] = list(v.to_bytes(8, "little"))
+            if rng.random() < 0.5 and i + 16 <= len(b) and n >= 2:
+                b[i + 8:i + 16] = list((2**64 - 1).to_bytes(8, "little"))
+    elif r < 0.90 and n >= 2 and len(b) >= 32 + 16 * n:
+        # duplicate item
+        b[32 + 8 * n + 8:32 + 8 * n + 16] = b[32 + 8 * n:32 + 8 * n + 8]
+    elif r < 0.95:
+        b = b + [rng.randrange(256) for _ in range(rng.randrange(1, 24))]
+    else:
+        b = [rng.randrange(256) for _ in range(rng.choice([0, 1, 5, 7, 8, 9, 31, 32, 33, 48, 64]))]
+        if rng.random() < 0.7 and len(b) >= 3:
+            b[1], b[2] = 1, 10
+    return b
+
+
+def gen_malformed(rng, cid, tier):
+    """C14: structure-aware mutations of a valid image (bit/byte flips, boundary values in lg_max, lg_cur, preamble,
+    flags, active_items, weight, offset, counts; truncation at every offset; extension; random bytes); every value that
+    comes back as Ok is then used."""
+    lg_max, lg_cur, weight, offset, pairs = random_abs(rng, lg_max=rng.choice([3, 3, 4, 5, 6, 10]), lg_cur=None)
+    pairs = pairs[:(1 << lg_cur) * 3 // 4][:12]
+    weight = max(weight, offset + sum(c for _, c in pairs))
+    img = spec_image(lg_max, lg_cur, weight, offset, pairs, short=rng.random() < 0.8)
+    n = len(pairs)
+    variants = []
+    if rng.random() < 0.5:
+        # truncation at every offset (a sample of them in the quick tier)
+        cuts = list(range(len(img) + 1))
+        if tier == "quick" and len(cuts) > 14:
+            cuts = sorted(set(rng.sample(cuts, 8) + [0, 7, 8, 31, 32, len(img) - 1, len(img)]) & set(cuts))
+        variants += [img[:c] for c in cuts]
+    for _ in range(8 if tier == "quick" else 30):
+        variants.append(mutate(rng, img, n))
+    ops = []
+    slot = 0
+    for b in variants:
+        r = ref_parse(b)
+        if r is not None and max(r[1], 3) > 14:
+            continue        # a valid image announcing a big table: gen_bigalloc covers that class (bounded sizes)
+        ops.append(parse_op(slot, b))
+        ops += use_value_ops(rng, slot, r[0] if r else 3, image_items(b))
+    return Case(cid, [], ops, tag="fi-malformed")
+
+
+def gen_bigalloc(rng, cid, tier):
+    """C14: valid images (8-byte empty form, or a short full form) that announce a current map of 2^lg_cur slots: the
+    table is inherent in the format (known finding C14-freq-table-alloc).  lg_cur stays <= 22 here (109 MB); nothing
+    bounds it short of lg_max <= 62, so a real image can ask for far more (process abort on allocation failure)."""
+    ops = []
+    for _ in range(3):
+        lg_cur = rng.choice([16, 17, 18, 20, 22])
+        lg_max = rng.choice([lg_cur, lg_cur + 1, 30, 62])
+        if rng.random() < 0.5:
+            b = spec_image(lg_max, lg_cur, 0, 0, [], flags=rng.choice([1, 4, 5]))
+        else:
+            pairs = [(x, 1 + i) for i, x in enumerate(fresh_items(rng, rng.choice([0, 1, 5]), "small"))]
+            b = spec_image(lg_max, lg_cur, 100 + sum(c for _, c in pairs), 7, pairs, short=False)
+        ops += [parse_op(0, b), (3, [0]), (12, [0])]
+    return Case(cid, [], ops, tag="fi-malformed-bigalloc")
+
+
+def kf_table_alloc(case):
+    """known finding C14-freq-table-alloc: every out-of-proportion allocation (-997) of the case comes from a parse op
+    whose image is valid and announces a current map whose table alone exceeds the allowance"""
+    hits = [(c, a) for (c, a), o in zip(case.ops, case.obs or []) if o[:1] == [-997]]
+    return bool(hits) and all(c == 11 and table_alloc_exceeds(a[2 + a[1]:]) for c, a in hits)
+
+
+def gen_foreign(rng, cid, tier):
+    """C13: images produced by the spec encoder from random abstract states, over every liberty a foreign writer has"""
+    ops = []
+    for rep in range(3):
+        lg_max, lg_cur, weight, offset, pairs = random_abs(rng)
+        pairs = list(pairs)
+        rng.shuffle(pairs)
+        empty = weight == 0
+        short = rng.random() < 0.7
+        if empty and short:
+            flags = rng.choice([1, 4, 5, 5, 1 | 2, 4 | 8, 0xFF, 0x85])
+        else:
+            flags = rng.choice([0, 0, 0, 2, 8, 0xFA, 0x50])
+        b = spec_image(lg_max, lg_cur, weight, offset, pairs, hibits=rng.choice([0, 0, 1, 2, 3]), flags=flags,
+                       un16=rng.choice([0, 0, 0xFFFF, rng.getrandbits(16)]), un32=rng.choice([0, 0, 2**32 - 1, rng.getrandbits(32)]),
+                       short=short)
+        items = [x for x, _ in pairs]
+        unseen = [x for x in (77, -123456789012) if x not in set(items)]
+        thr = rng.choice([0, 1, 5, offset, offset + 3])
+        ops.append(parse_op(0, b))
+        ops += observe_ops(0, items[:30], unseen, thr)
+        # a round trip of the loaded sketch, compared as twins
+        ops.append((7, [0, 1]))
+        tw = Twin(ops, 0, 1)
+        tw.both(3, []); tw.both(12, [])
+        for x in items[:5] + unseen[:1]:
+            tw.both(2, [x, h(x)])
+        tw.both(5, [0, 0, 0])
+        # merged into a fresh sketch of the same (or a bigger) maximum size
+        mlg = rng.choice([lg_max, lg_max, 12])
+        if mlg <= 12:
+            ops.append((0, [2, 1 << mlg]))
+            ops.append((4, [2, 0]))
+            ops += observe_ops(2, items[:8], unseen[:1], thr)
+    return Case(cid, [], ops, tag="fi-foreign")
+
+
+def gen_extremes(rng, cid, tier, what):
+    """C17: valid calls only, at the documented extremes: map size 8 (and 16, and big ones), streams long enough for
+    many purges including purges that empty the map, merges of purged-to-nothing sketches in both directions, weights
+    near the top of the u64 range without overflowing the total, reset, every query in between."""
+    ops = []
+    if what == "huge-config":
+        size = 1 << rng.choice([40, 62, 62])
+        ops = [(0, [0, size]), (3, [0]), (10, [0])]
+        dom = fresh_items(rng, 30, "mixed")
+        for x in dom:
+            ops.append((1, [0, x, rng.choice([1, 2**50]), h(x)]))
+        ops += final_ops(rng, [0], dom[:10], [5])
+        ops += [(7, [0, 1]), (3, [1]), (12, [1]), (9, [0]), (3, [0]), (6, [0])]
+        return Case(cid, [], ops, tag="fi-extremes-huge")
+    if what == "heavy":
+        # weights near the top: 15 * (2^60 - 1) < 2^64; every purge adds a huge median to the offset
+        size = rng.choice([8, 8, 16])
+        cap = cap_of(size)
+        ops = [(0, [0, size]), (0, [1, size])]
+        dom = fresh_items(rng, cap + 3, "mixed")
+        ws = [rng.choice([2**60 - 1, 2**60 - 1, 2**59, 2**60 - rng.randrange(1, 1000), 1]) for _ in range(15)]
+        assert sum(ws) <= 2**64 - 1
+        half = len(ws) // 2
+        for i, w in enumerate(ws):
+            s = 0 if i < half or rng.random() < 0.5 else 1
+            x = dom[i % len(dom)]
+            ops.append((1, [s, x, w, h(x)]))
+            if i % 3 == 2:
+                ops += [(3, [s]), (2, [s, x, h(x)]), (5, [s, 0, 0, 0])]
+        ops += [(4, [0, 1]), (3, [0])]
+        ops += final_ops(rng, [0, 1], dom, [5])
+        ops += [(7, [0, 2]), (3, [2]), (12, [2])]
+        return Case(cid, [], ops, tag="fi-extremes-heavy-%d" % size)
+    size = what
+    cap = cap_of(size)
+    ops = [(0, [0, size]), (0, [1, size]), (0, [2, rng.choice([8, size])])]
+    n = (40 * cap if size <= 16 else 6 * cap) if tier == "quick" else (200 * cap if size <= 16 else 12 * cap)
+    kind = rng.choice(["equal", "distinct-loop", "uniform", "zipf"])
+    ndom = cap + rng.choice([1, 1, 2, 5]) if kind in ("equal", "distinct-loop") else rng.choice([cap + 1, 2 * cap, 4 * cap])
+    dom = fresh_items(rng, ndom, rng.choice(["small", "mixed", "random"]) if ndom < 200 else "random")
+    wmax = rng.choice([1, 3, 1000])
+    if kind == "equal":
+        st = stream(rng, "equal", dom, n, wmax)
+    elif kind == "distinct-loop":
+        # always-new items of one weight: every purge removes every counter
+        w = rng.choice([1, 5])
+        allitems = fresh_items(rng, n, "random")
+        st = [(x, w) for x in allitems]
+        dom = allitems[:cap + 2] + allitems[-cap:]
+    else:
+        st = stream(rng, kind, dom, n, wmax)
+    every = max(5, n // 10)
+    for i, (x, w) in enumerate(st):
+        ops.append((1, [0, x, w, h(x)]))
+        if i % every == every - 1:
+            ops += probe_ops(rng, 0, dom, wmax)
+    # a purged-to-nothing partner, merged in both directions, and merges of sketches with themselves
+    em = fresh_items(rng, cap + 1, "random")
+    for x in em:
+        ops.append((1, [1, x, 4, h(x)]))
+    ops += [(3, [1]), (6, [1]), (12, [1])]
+    ops += [(4, [0, 1]), (3, [0]), (4, [1, 0]), (3, [1]), (4, [2, 1]), (3, [2]), (4, [1, 1]), (3, [1]), (4, [2, 2]), (3, [2])]
+    ops += [(7, [1, 3]), (3, [3]), (4, [3, 0]), (3, [3])]
+    qdom = dom if len(dom) <= 60 else rng.sample(dom, 60)
+    ops += final_ops(rng, [0, 1, 2, 3], qdom, [5])
+    ops += [(9, [0]), (3, [0]), (6, [0]), (4, [0, 1]), (3, [0]), (9, [1]), (4, [0, 1]), (3, [0])]
+    for (x, w) in st[:cap + 2]:
+        ops.append((1, [0, x, w, h(x)]))
+    ops += final_ops(rng, [0], qdom[:10], [])
+    return Case(cid, [], ops, tag="fi-extremes-%s-%d" % (kind, size))
+
+
+def gen_size(rng, cid, tier, size, lgn):
+    """C18: growing streams (distinct, repeated, adversarially ordered); after every power-of-two prefix the number of
+    active items and the image size are observed (oracle prop_layout: active <= 3/4 map size, len = 8 | 32 + 16 * active)"""
+    kind = rng.choice(["distinct", "repeated", "sorted", "clustered"])
+    n = 1 << lgn
+    if kind == "distinct":
+        items = fresh_items(rng, n, "random")
+    elif kind == "repeated":
+        d = fresh_items(rng, rng.choice([cap_of(size) + 1, 4 * cap_of(size), 50]), "random")
+        items = [rng.choice(d) for _ in range(n)]
+    elif kind == "sorted":
+        base = rng.randint(-10**6, 10**6)
+        items = [base + i for i in range(n)]
+    else:
+        # items whose hashes fall into few table slots (adversarial for the probing, not for the bound)
+        pool = fresh_items(rng, 2 * n, "small")
+        mask = max(size, 8) - 1
+        pool.sort(key=lambda x: h(x) & mask)
+        items = pool[:n]
+        rng.shuffle(items)
+    ops = [(0, [0, size]), (3, [0]), (6, [0])]
+    w = rng.choice([1, 1, 3])
+    nxt = 1
+    for i, x in enumerate(items):
+        ops.append((1, [0, x, w if kind != "repeated" else rng.choice([1, 2, 7]), h(x)]))
+        if i + 1 == nxt:
+            ops += [(3, [0]), (6, [0])]
+            nxt *= 2
+    ops += [(2, [0, items[0], h(items[0])]), (2, [0, items[-1], h(items[-1])])]
+    return Case(cid, [], ops, tag="fi-size-%s-%d-%d" % (kind, size, lgn))
+
+
 def gen(rng, tier, n=None, focus=None):
+    if focus == "codec":
+        n = n or (40 if tier == "quick" else 400)
+        return [gen_codec(rng, i, tier, purge=(i % 2 == 1)) for i in range(n)]
+    if focus == "layout":
+        n = n or (30 if tier == "quick" else 300)
+        return [gen_layout(rng, i, tier) for i in range(n)]
+    if focus == "malformed":
+        n = n or (30 if tier == "quick" else 400)
+        return [gen_malformed(rng, i, tier) for i in range(n)] + [gen_bigalloc(rng, n + i, tier) for i in range(2 if tier == "quick" else 6)]
+    if focus == "foreign":
+        n = n or (30 if tier == "quick" else 400)
+        return [gen_foreign(rng, i, tier) for i in range(n)]
+    if focus == "extremes":
+        n = n or (16 if tier == "quick" else 120)
+        plan = [8, 8, 16, 2048 if tier == "thorough" else 1024, "heavy", "heavy", "huge-config"]
+        while len(plan) < n:
+            plan.append(rng.choice([8, 8, 8, 16, 16, 32, 64, "heavy", "huge-config"] + ([256, 4096] if tier == "thorough" else [])))
+        return [gen_extremes(rng, i, tier, w) for i, w in enumerate(plan[:n])]
+    if focus == "size":
+        n = n or (10 if tier == "quick" else 60)
+        top = 13 if tier == "quick" else 17
+        plan = [(8, top), (16, top), (64, top), (2048, top - 1 if tier == "quick" else 16), (1024, top - 1)]
+        while len(plan) < n:
+            size = rng.choice([8, 8, 16, 32, 128, 256, 512])
+            plan.append((size, rng.randint(8, top)))
+        return [gen_size(rng, i, tier, s, l) for i, (s, l) in enumerate(plan[:n])]
     n = n or (70 if tier == "quick" else 500)
     cases = []
     # fixed skeleton: every size with every stream kind appears at least once in the thorough tier;
@@ -273,6 +837,7 @@ def gen(rng, tier, n=None, focus=None):
     for size in SIZES_MED:
         plan += [("single", size, k) for k in (KINDS if tier == "thorough" else rng.sample(KINDS, 2))]
     plan += [("d6", s, None) for s in (8, rng.choice([16, 32, 64]))]
+    plan += [("heavy", 8, None), ("heavy", rng.choice([16, 32, 64, 128]), None)]
     plan += [("images", None, None), ("badnew", None, None)]
     nskel = len(plan)
     while len(plan) < n:
@@ -286,8 +851,10 @@ def gen(rng, tier, n=None, focus=None):
             else:
                 sizes = [rng.choice(SIZES_SMALL + [128, 256]) for _ in range(k)]
             plan.append(("merge", sizes, None))
-        elif r < 0.90:
+        elif r < 0.88:
             plan.append(("d6", rng.choice([8, 16, 32, 128]), None))
+        elif r < 0.91:
+            plan.append(("heavy", rng.choice([8, 8, 16, 32, 64, 256]), None))
         elif r < 0.97:
             plan.append(("images", None, None))
         else:
@@ -303,6 +870,8 @@ def gen(rng, tier, n=None, focus=None):
             cases.append(gen_merge(rng, i, a, tier, big=max(a) >= 512))
         elif what == "d6":
             cases.append(gen_d6(rng, i, a))
+        elif what == "heavy":
+            cases.append(gen_heavy(rng, i, a))
         elif what == "images":
             cases.append(gen_images(rng, i))
         else:
@@ -311,6 +880,15 @@ def gen(rng, tier, n=None, focus=None):
 
 
 def nontrivial(case, obs):
-    """at least 2 distinct items updated with positive weight and at least one bound query"""
+    """at least 2 distinct items updated with positive weight and at least one bound query; or a fork (op 7) of a
+    sketch that was updated; or at least 3 images fed to parse of which one is accepted and one rejected; or a foreign
+    image with at least 2 counters accepted and then queried"""
     items = {a[1] for (c, a) in case.ops if c == 1 and a[2] > 0}
-    return len(items) >= 2 and any(c == 2 for (c, a) in case.ops)
+    if len(items) >= 2 and any(c == 2 for (c, a) in case.ops):
+        return True
+    if items and any(c == 7 for (c, a) in case.ops):
+        return True
+    res = [o for (c, a), o in zip(case.ops, obs or []) if c == 11]
+    if len(res) >= 3 and [1] in res and [-998] in res:
+        return True
+    return any(c == 11 and a[1] >= 2 and o == [1] for (c, a), o in zip(case.ops, obs or [])) and any(c == 2 for (c, a) in case.ops)
